@@ -40,14 +40,45 @@ func (s *scriptedReader) Read(p []byte) (int, error) {
 		s.k++
 		return 0, errOther
 	}
-	b := unhx(it[2:])
+	// b:<hex> data; be:/bt:/bx:<hex> data returned TOGETHER with io.EOF / a timeout / another error
+	// (allowed by the io.Reader contract)
+	colon := strings.IndexByte(it, ':')
+	kind := it[:colon]
+	b := unhx(it[colon+1:])
 	n := copy(p, b)
 	if n < len(b) {
-		s.items[s.k] = "b:" + hx(b[n:])
-	} else {
-		s.k++
+		s.items[s.k] = kind + ":" + hx(b[n:])
+		return n, nil
+	}
+	s.k++
+	switch kind {
+	case "be":
+		return n, io.EOF
+	case "bt":
+		return n, errTimeout
+	case "bx":
+		return n, errOther
 	}
 	return n, nil
+}
+
+// expandItems rewrites data-with-error items as data followed by the error, which is what
+// the property (and bufio) make of them.
+func expandItems(items []string) []string {
+	var out []string
+	for _, it := range items {
+		switch {
+		case strings.HasPrefix(it, "be:"):
+			out = append(out, "b:"+it[3:], "eof")
+		case strings.HasPrefix(it, "bt:"):
+			out = append(out, "b:"+it[3:], "to")
+		case strings.HasPrefix(it, "bx:"):
+			out = append(out, "b:"+it[3:], "err")
+		default:
+			out = append(out, it)
+		}
+	}
+	return out
 }
 
 type readerObs struct {
@@ -139,6 +170,14 @@ func init() {
 						items = append(items, "b:"+hx(bs[off:]))
 					}
 					emit("single-interruption", mk([2]int{80, 1}, items))
+					if off > 0 && off%3 == 0 {
+						// the same interruption reported together with the preceding data
+						items2 := []string{[]string{"be:", "bt:"}[r.Intn(2)] + hx(bs[:off])}
+						if off < len(bs) {
+							items2 = append(items2, "b:"+hx(bs[off:]))
+						}
+						emit("single-interruption-with-data", mk([2]int{80, 1}, items2))
+					}
 				}
 			}
 			for i := 0; i < c.N(40, 600); i++ {
@@ -157,7 +196,11 @@ func init() {
 					}
 					items = append(items, "b:"+hx(bs[pos:pos+n]))
 					pos += n
-					switch r.Intn(8) {
+					switch r.Intn(9) {
+					case 8:
+						// the failure is reported by the same Read call that returns the data
+						items[len(items)-1] = []string{"be:", "bt:", "be:", "bx:"}[r.Intn(4)] + hx(bs[pos-n:pos])
+						class = "data-with-error"
 					case 0:
 						items = append(items, fail())
 					case 1:
@@ -193,7 +236,7 @@ func init() {
 			var want []byte
 			run := 0
 			stopped := false
-			for _, it := range t[4:] {
+			for _, it := range expandItems(t[4:]) {
 				if strings.HasPrefix(it, "b:") {
 					want = append(want, unhx(it[2:])...)
 					run = 0
@@ -225,7 +268,8 @@ func init() {
 			return ""
 		},
 		NonTrivial: func(op string, ob *Obs) bool {
-			return strings.Contains(op, " eof") || strings.Contains(op, " to") || strings.Contains(op, " err")
+			return strings.Contains(op, " eof") || strings.Contains(op, " to") || strings.Contains(op, " err") ||
+				strings.Contains(op, " be:") || strings.Contains(op, " bt:") || strings.Contains(op, " bx:")
 		},
 	}
 }
